@@ -619,7 +619,37 @@ var digits = regexp.MustCompile(`[0-9]+`)
 var tableName = regexp.MustCompile(`table [a-z] `)
 
 // rebootSafe turns a panic of the tree under test during recovery into a violation.
+func (m *fzModel) tornMeta(model *simdisk.FSModel, img map[string][]byte) bool {
+	for _, tb := range m.p.Tables {
+		mp := filepath.Join(model.Root, "fz", tb.Name+".meta")
+		b, ok := img[mp]
+		if !ok {
+			continue
+		}
+		whole := false
+		for _, st := range model.WholeWriteStates(mp) {
+			if bytes.Equal(st, b) {
+				whole = true
+				break
+			}
+		}
+		if !whole {
+			return true
+		}
+	}
+	return false
+}
+
 func (m *fzModel) rebootSafe(model *simdisk.FSModel, img map[string][]byte, cut, draw int, res *simcore.Result) (v *simcore.Violation) {
+	defer func() {
+		// A table metadata file holding neither version of a rewrite (torn or zero-filled
+		// extension at power loss) is the recorded cause "torn-metadata-file"; whatever the
+		// symptom (open fails, garbage virtual tail hides synced items, ...), key it by the cause.
+		if v != nil && draw > 0 && m.tornMeta(model, img) {
+			v.Msg = "[image holds a torn .meta file; symptom: " + v.Key + "] " + v.Msg
+			v.Key = "power-loss:torn-metadata-file"
+		}
+	}()
 	defer func() {
 		if r := recover(); r != nil {
 			if hp, ok := r.(simcore.HarnessPanic); ok {
